@@ -97,6 +97,49 @@ pub const PROGRAMS: &[&str] = &[
     "[.[]? | tostring | capture(\"(?<n>[0-9]+)\")?]",
 ];
 
+/// One program per filter the tree defines (natives and jq-coded definitions, discovered at run
+/// time): every filter runs at least once alone in a fresh process (the oracle) and once in the
+/// process where all the others run too, so state that one filter leaves behind for another
+/// (a cache, a lazily initialised static shared by two of them) shows as a difference.
+fn discovered() -> Vec<String> {
+    let mut sigs: Vec<(String, usize)> = Vec::new();
+    for (name, args, _) in jaq_all::data::funs() {
+        sigs.push((name.to_string(), args.len()));
+    }
+    for d in jaq_all::defs() {
+        sigs.push((d.name.to_string(), d.args.len()));
+    }
+    sigs.sort();
+    sigs.dedup();
+    let ident = |s: &str| {
+        let s = s.strip_prefix('@').unwrap_or(s);
+        s.chars().next().is_some_and(|c| c.is_ascii_alphabetic() || c == '_') && s.chars().all(|c| c.is_ascii_alphanumeric() || c == '_')
+    };
+    // excluded by the statement (clock, environment, input stream) or ending the run
+    let skip = ["input", "inputs", "now", "env", "localtime", "strflocaltime", "mktime", "halt", "halt_error", "debug", "stderr", "debug_empty", "stderr_empty", "input_line_number"];
+    let mut out = Vec::new();
+    for (name, arity) in sigs {
+        if !ident(&name) || skip.contains(&name.as_str()) {
+            continue;
+        }
+        let call = |args: &[&str]| if args.is_empty() { name.clone() } else { format!("{name}({})", args.join("; ")) };
+        let variants: Vec<String> = match arity {
+            0 => vec![call(&[])],
+            1 => vec![call(&["\"a\""]), call(&["1"])],
+            2 => vec![call(&["\"a\"", "\"b\""]), call(&["1", "2"])],
+            _ => vec![call(&vec!["\"a\""; arity])],
+        };
+        for v in variants {
+            out.push(format!("[limit(8; try ({v}) catch \"E\")]"));
+        }
+    }
+    out
+}
+
+pub fn programs() -> Vec<String> {
+    PROGRAMS.iter().map(|s| s.to_string()).chain(discovered()).collect()
+}
+
 pub const INPUTS: &[&str] = &[
     "null",
     "1",
@@ -106,6 +149,7 @@ pub const INPUTS: &[&str] = &[
     "[[1, 2], [3, 4]]",
     "[{\"a\": 2, \"b\": \"x\"}, {\"a\": 1, \"b\": \"yy\"}]",
     "\"ab\"",
+    "\"a &lt;b&gt; &amp; &quot;q&quot; <i> x%20y%2Fz aGVsbG8= ON2WG2DFON2A====\"",
 ];
 
 #[derive(Serialize, Deserialize, Clone, Debug)]
@@ -312,12 +356,12 @@ fn main() {
     let a = |i: usize| args.get(i).map(|s| s.as_str()).unwrap_or("");
     match a(0) {
         "list" => {
-            println!("{}", serde_json::json!({"programs": PROGRAMS, "inputs": INPUTS, "sync": cfg!(feature = "sync")}));
+            println!("{}", serde_json::json!({"programs": programs(), "inputs": INPUTS, "sync": cfg!(feature = "sync")}));
         }
         "oracle" => {
             // a fresh process per program: compile it, run it on every input, nothing else
             let pi: usize = a(1).parse().expect("pi");
-            let out: Vec<Vec<String>> = match compile(PROGRAMS[pi]) {
+            let out: Vec<Vec<String>> = match compile(&programs()[pi]) {
                 Ok(f) => INPUTS.iter().map(|x| run_stream(&f, parse(x), || {})).collect(),
                 Err(e) => INPUTS.iter().map(|_| vec![format!("# does not compile: {e}")]).collect(),
             };
